@@ -222,11 +222,26 @@ def st_cases():
                 letter, resname = "?", draw(st.sampled_from(["ALA", "HOH", "MG", "CYS"]))
             occs = draw(st.lists(occ, min_size=1, max_size=4))
             residues.append({"chain": chain, "number": number[chain], "names": names, "letter": letter, "resname": resname, "occ": occs})
+        # both alternate locations of an atom kept in ONE residue (residues assembled through the API rather than read
+        # by the library's parser, which keeps one location per atom name): two atoms of a residue share a name
+        twins = []
+        for ri, r in enumerate(residues):
+            if draw(st.integers(0, 3)) == 0:
+                k = draw(st.integers(0, len(r["names"]) - 1))
+                start = sum(len(q["names"]) for q in residues[:ri])
+                twins.append((start + k, start + len(r["names"])))
+                r["names"] = r["names"] + [r["names"][k]]
+                if draw(st.booleans()):
+                    r["occ"] = [0.5]
         nat = sum(len(r["names"]) for r in residues)
         plants = draw(st.lists(st.tuples(st.integers(0, 10 ** 6), st.integers(0, 10 ** 6),
                                          st.sampled_from([-0.3, -0.05, -0.001, -0.0001, 0.0001, 0.001, 0.05, 0.3, -0.6]),
                                          st.integers(0, 2), st.booleans()), min_size=1, max_size=6))
-        return {"kind": "synthetic", "residues": residues, "plants": [list(p) for p in plants]}
+        plants = [list(p) for p in plants]
+        for a, b in twins:
+            if draw(st.booleans()):
+                plants.append([a, b, draw(st.sampled_from([-0.6, -0.3, -0.05, 0.05])), draw(st.integers(0, 2)), draw(st.booleans())])
+        return {"kind": "synthetic", "residues": residues, "plants": plants}
 
     return build()
 
@@ -394,6 +409,8 @@ def classify(case):
     rs = case.get("residues") or []
     if len({(r["chain"], r["number"]) for r in rs}) < len(rs):
         labs.append("two-residues-at-one-position")
+    if any(len(set(r["names"])) < len(r["names"]) for r in rs):
+        labs.append("two-atoms-of-one-name-in-a-residue")
     if case.get("kind") == "cli":
         return info["clashes"] >= 3, labs
     return info["clashes"] >= 3 and info["sums"] >= 2, labs
